@@ -285,11 +285,15 @@ func (d directive) ctlConfigs() (string, string) {
 	build := func(rs []ruleD, withCtl bool) string {
 		var sb strings.Builder
 		sb.WriteString(header)
-		for i, r := range rs {
+		marked := false
+		for _, r := range rs {
+			if !marked && r.ID >= 3 {
+				sb.WriteString("SecMarker MID\n")
+				marked = true
+			}
 			if withCtl && r.ID == firstIDAt(idx) {
 				sb.WriteString(ctlRule)
 			}
-			_ = i
 			sb.WriteString(r.text())
 		}
 		return sb.String()
@@ -304,7 +308,12 @@ func (d directive) ctlConfigs() (string, string) {
 	var sb strings.Builder
 	sb.WriteString(header)
 	placed := false
+	marked := false
 	for _, r := range rew {
+		if !marked && r.ID >= 3 {
+			sb.WriteString("SecMarker MID\n")
+			marked = true
+		}
 		if !placed && r.ID >= firstIDAt(idx) {
 			sb.WriteString(noop)
 			placed = true
